@@ -140,8 +140,7 @@ Fixpoint bloop (fuel : nat) (p : list rune) : option (list rune * list rune * bo
             else
               (* a collating symbol or an equivalence class: a single character stands for itself, anything else is rejected *)
               match inside with
-              | [x] => if x =? RuneError then cont [] rest true
-                       else cont (if esc_in_bracket x then [92; x] else [x]) rest false
+              | [x] => cont (if esc_in_bracket x then [92; x] else [x]) rest false     (* (an invalid byte is rejected by compile1) *)
               | _ => cont [] rest true
               end
           | None => cont [92; 91] p' false
